@@ -7,6 +7,7 @@ use std::io::{BufRead, Write};
 
 mod util;
 mod dt;
+mod tree;
 
 pub type Args = Vec<Vec<u8>>;
 
@@ -14,6 +15,8 @@ fn run_cmd(cmd: &str, args: &Args) -> String {
     match cmd {
         "dt" => dt::cmd_dt(args),
         "dtp" => dt::cmd_dtp(args),
+        "doc" => tree::cmd_doc(args),
+        "val" => tree::cmd_val(args),
         _ => "unknown-command".to_string(),
     }
 }
